@@ -11,7 +11,7 @@ import (
 
 func r18_6(c *Ctx, r *Report) {
 	const rule = "R18.6"
-	r.rule(rule, "Vocabulary searches cover the whole vocabulary. The clash animal of the day and of the hour (Lunar.GetDayChongShengXiao, Lunar.GetTimeChongShengXiao, LunarTime.GetChongShengXiao and the descriptions built on them) is followed for every one of the twelve branches (the search loop as a table over the iteration number, tables folded, helpers inline): the answer is the animal at the position the clashing branch has in ZHI — for all twelve, so that no branch falls through to the empty string, and the same in the duplicated routes.")
+	r.rule(rule, "Vocabulary searches cover the whole vocabulary. The clash animal of the day and of the hour (Lunar.GetDayChongShengXiao, Lunar.GetTimeChongShengXiao, LunarTime.GetChongShengXiao and the descriptions built on them) is followed for every one of the twelve branches (the search loop as a table over the iteration number, tables folded, helpers inline): the answer is the animal at the position the clashing branch has in ZHI — for all twelve, so that no branch falls through to the empty string, and the same in the duplicated routes. The decade of a pillar (LunarUtil.GetXunIndex, behind every Xun and XunKong accessor) is followed for all sixty pillars: the pillar's position in the cycle divided by ten.")
 	zhi := c.tabStrs(r, rule, "LunarUtil", "ZHI")
 	sx := c.tabStrs(r, rule, "LunarUtil", "SHENG_XIAO")
 	chong := c.tabStrs(r, rule, "LunarUtil", "CHONG")
@@ -63,5 +63,48 @@ func r18_6(c *Ctx, r *Report) {
 		sort.Strings(bad)
 		r.check(len(bad) == 0 && n == 12, rule, t.name+" answers for all twelve branches", c.fnPos(fn), fmt.Sprintf("%d branches; deviations: %v", n, headList(bad, 3)))
 	}
-	r.floor(rule, 3)
+	xunTable(c, r, rule)
+	r.floor(rule, 4)
+}
+
+// xunTable: the decade of every pillar. LunarUtil.GetXunIndex is followed for all sixty pillars (its searches as
+// tables over the iteration number, function literals inline): the index is the pillar's position in the cycle
+// divided by ten, the one XUN and XUN_KONG are laid out by. Under AX-SEARCHHIT (the argument is a pillar) the sixty
+// pillars are all there is, so the table also bounds the index for the interval analysis where that cannot.
+func xunTable(c *Ctx, r *Report, rule string) {
+	c.xunRun = true
+	fn := c.FuncBy["LunarUtil.GetXunIndex"]
+	gan, zhi := c.tables.Var("LunarUtil", "GAN")
+	_ = zhi
+	g, err1 := c.tables.Var("LunarUtil", "GAN")
+	z, err2 := c.tables.Var("LunarUtil", "ZHI")
+	_ = gan
+	if fn == nil || len(fn.Params) != 1 || err1 != nil || err2 != nil || g == nil || z == nil || len(g.L) != 11 || len(z.L) != 13 {
+		r.bad(rule, "LunarUtil.GetXunIndex gives every pillar its decade", "-", "the function or the stem and branch tables were not found (undecided = fail)")
+		return
+	}
+	var bad []string
+	n := 0
+	for k := 0; k < 60; k++ {
+		pillar := g.L[k%10+1].S + z.L[k%12+1].S
+		leaf := func(fr *evalFrame, v ssa.Value) (interface{}, bool) {
+			if p, ok := v.(*ssa.Parameter); ok && fr.parent == nil && p == fn.Params[0] {
+				return pillar, true
+			}
+			return nil, false
+		}
+		ev := &evaluator{leaf: leaf, inline: inlineLibrary, counted: 64}
+		res, outcome := ev.run(fn, nil, nil, nil, nil)
+		n++
+		got := outcome + " " + ev.fail
+		if outcome == "return" && len(res) == 1 {
+			got = fmt.Sprint(res[0])
+		}
+		if got != fmt.Sprint(k/10) {
+			bad = append(bad, fmt.Sprintf("pillar %s (number %d of the cycle): %s, stated %d", pillar, k, got, k/10))
+		}
+	}
+	sort.Strings(bad)
+	c.xunOK = len(bad) == 0 && n == 60
+	r.check(len(bad) == 0 && n == 60, rule, "LunarUtil.GetXunIndex gives every pillar its decade", c.fnPos(fn), fmt.Sprintf("%d pillars; deviations: %v", n, headList(bad, 3)))
 }
